@@ -44,6 +44,17 @@ def site_program(rng):
     lines.append("fn setg(o, v) { o.g = v; return o.g; }")
     lines.append("fn callh(o) { return o.h(); }")
     lines.append("fn show(x) { if x == nil { print(\"nil\"); } else { print(x); } }")
+    # a class declaration evaluated many times with different super classes: its super sites are
+    # shared by all the resulting classes (call and bound-read forms)
+    lines.append("fn mk(base) {")
+    lines.append("  class D : base {")
+    lines.append("    h() { return super.h() + 1000; }")
+    lines.append("    hm() { let m = super.h; return m() + 2000; }")
+    lines.append("    gg() { return self.g; }")
+    lines.append("  }")
+    lines.append("  return D;")
+    lines.append("}")
+    lines.append("fn callhm(o) { return o.hm(); }")
     exp = []
 
     def has_method_f(c):
@@ -65,7 +76,22 @@ def site_program(rng):
     for i in range(n):
         c = rng.randrange(ncls)
         shape, parent = shapes[c]
-        kind = rng.choice(["get", "call", "set", "h", "call", "get"])
+        kind = rng.choice(["get", "call", "set", "h", "call", "get", "mk", "mk"])
+        if kind == "mk":
+            form = rng.choice(["h", "hm", "gg", "hh"])
+            if form == "h":
+                lines.append("show(callh(mk(K%d)()));" % c)
+                exp.append(str(hval(c) + 1000))
+            elif form == "hm":
+                lines.append("show(callhm(mk(K%d)()));" % c)
+                exp.append(str(hval(c) + 2000))
+            elif form == "hh":
+                lines.append("show(callh(mk(mk(K%d))()));" % c)
+                exp.append(str(hval(c) + 2000))
+            else:
+                lines.append("show(mk(K%d)().gg());" % c)
+                exp.append(str(500 + c))
+            continue
         if kind == "get":
             if shape == "field":
                 lines.append("show(getf(K%d()));" % c)
@@ -144,6 +170,11 @@ def run(ctx):
         f = os.path.join(d, "s%d.lay" % k)
         open(f, "w").write(src)
         progs.append((f, src, exp))
+    # minimised past failures first
+    cdir = os.path.join(common.VERIF, "corpus", "C13")
+    for fn in sorted(os.listdir(cdir)) if os.path.isdir(cdir) else []:
+        if fn.endswith(".lay") and os.path.exists(os.path.join(cdir, fn[:-4] + ".exp")):
+            progs.append((os.path.join(cdir, fn), open(os.path.join(cdir, fn)).read(), open(os.path.join(cdir, fn[:-4] + ".exp")).read()))
     modes = ["", "--caches-off", "--gc every:1 --full 1", "--gc every:3 --full 1", "--caches-off --gc every:2"]
     if not ctx.quick():
         modes += ["--gc every:2 --full 1", "--gc coin:1/3:%d --full 1" % ctx.seed, "--gc every:5"]
@@ -165,7 +196,7 @@ def run(ctx):
         return
     ctx.assumptions += [
         "class tables are frozen once the class expression finished (C03 declareClass theorems) — the World of the model",
-        "address reuse (a cached class collected and another allocated at its address, D16) is outside the theorem's envelope; it is searched by the class-churn part of the site stream under full collections at every allocation; the system allocator is not forced to reuse addresses",
+        "class addresses identify classes for as long as a slot caches them: the caches are traced as roots (D16 repair, 077cf99), so a cached class is not collected and its address not reused; C13_witness_address_reuse shows what happens otherwise, and the class-factory/class-churn part of the site stream under full collections at every allocation searches for it (that is how D16 was found)",
         "REPL entries replace the cache vectors (D13) — C19's known finding",
     ]
 
